@@ -49,6 +49,7 @@ type tcase struct {
 	sps    []byte
 	pps    []byte
 	ascraw []byte
+	truth  string // ground truth of the ADTS-visible audio parameters, when the generator knows it
 	mux    bool
 	av     []avFrame
 	raw    []rawFrame
@@ -61,6 +62,9 @@ func (k *tcase) line() string {
 	switch k.op {
 	case "av":
 		fmt.Fprintf(&b, " sps=%s pps=%s ascraw=%s mux=%s", Hx(k.sps), Hx(k.pps), Hx(k.ascraw), B01(k.mux))
+		if k.truth != "" {
+			b.WriteString(" truth=" + k.truth)
+		}
 		for _, f := range k.av {
 			switch f.kind {
 			case 'v':
@@ -99,6 +103,8 @@ func parseCase(l string) *tcase {
 			k.ascraw = Unhx(t[7:])
 		case strings.HasPrefix(t, "mux="):
 			k.mux = t[4:] == "1"
+		case strings.HasPrefix(t, "truth="):
+			k.truth = t[6:]
 		case strings.Contains(t, "="):
 		case k.op == "av":
 			p := strings.Split(t, ":")
@@ -341,21 +347,26 @@ func genNal(c *Ctx, size int) []byte {
 	return b
 }
 
-func genAsc(c *Ctx) []byte {
+func genAsc(c *Ctx) ([]byte, string) {
 	switch c.Rng.Intn(12) {
 	case 0:
-		return nil
+		return nil, ""
 	case 1:
-		return c.Rng.Bytes(1 + c.Rng.Intn(6))
+		return c.Rng.Bytes(1 + c.Rng.Intn(6)), ""
 	case 2:
-		// explicit SBR signalling: AOT 5, sr idx, chan, ext sr idx, AOT 2
+		// explicit SBR signalling: AOT 5, sr idx, chan, ext sr idx, AOT 2: ADTS shows AAC-LC at the
+		// extension sampling rate
 		ot, si, ch, esi := 5, c.Rng.Intn(13), 1+c.Rng.Intn(7), c.Rng.Intn(13)
 		v := uint32(ot)<<27 | uint32(si)<<23 | uint32(ch)<<19 | uint32(esi)<<15 | uint32(2)<<10
-		return []byte{byte(v >> 24), byte(v >> 16), byte(v >> 8), byte(v)}
+		return []byte{byte(v >> 24), byte(v >> 16), byte(v >> 8), byte(v)}, fmt.Sprintf("2,%d,%d", esi, ch)
 	case 3:
-		return aac.Encode2BytesASC(byte(c.Rng.Intn(32)), byte(c.Rng.Intn(16)), byte(c.Rng.Intn(16)))
+		return aac.Encode2BytesASC(byte(c.Rng.Intn(32)), byte(c.Rng.Intn(16)), byte(c.Rng.Intn(16))), ""
 	default:
-		return aac.Encode2BytesASC(byte(1+c.Rng.Intn(4)), byte(c.Rng.Intn(13)), byte(1+c.Rng.Intn(7)))
+		ot, si, ch := 1+c.Rng.Intn(4), c.Rng.Intn(13), 1+c.Rng.Intn(7)
+		// written out bit by bit (not with the package's own encoder): 5 bits object type, 4 bits
+		// frequency index, 4 bits channel configuration
+		v := uint16(ot)<<11 | uint16(si)<<7 | uint16(ch)<<3
+		return []byte{byte(v >> 8), byte(v)}, fmt.Sprintf("%d,%d,%d", ot, si, ch)
 	}
 }
 
@@ -367,7 +378,7 @@ func genAvCase(c *Ctx, big bool) *tcase {
 	if c.Rng.Chance(90) {
 		k.pps = sanitizeNal(append([]byte{0x68}, c.Rng.Bytes(1+c.Rng.Intn(8))...))
 	}
-	k.ascraw = genAsc(c)
+	k.ascraw, k.truth = genAsc(c)
 	n := 1 + c.Rng.Intn(8)
 	if c.Rng.Chance(10) {
 		n = 16 + c.Rng.Intn(40) // long enough for the continuity counters to wrap several times
